@@ -66,23 +66,23 @@ CHECKS = {
          "The encoded grammar is the one whose hash is checked; ambiguous literal forms are not generated.",
          "DESIGN.md 6/C11"),
  "C12": ("outcome classifier + goroutine-leak monitor over hostile generated inputs (runtime monitoring)",
-         "Random bytes, token soups, mutated valid documents, kind/context mismatches and injected illegal characters are fed to the real ParseSource; every outcome must be a value or a located diagnostic whose location matches the source; runtime.Stack(all) is searched for scanner goroutines after each call; hangs are decided by a stall watchdog plus goroutine dump. Sampled executions under oracles.",
+         "Random bytes, token soups, mutated valid documents, kind/context mismatches and injected illegal characters are fed to the real ParseSource; every outcome must be a value or a located diagnostic whose location matches the source; runtime.Stack(all) is searched for scanner goroutines after each call; hangs are decided by a stall watchdog plus goroutine dump; Go's coverage-guided fuzzer (go test -fuzz) drives the same oracle. Sampled executions under oracles.",
          "The diagnostic text format identifies a located diagnostic.",
          "DESIGN.md 6/C12"),
  "C04": ("controlled randomized scheduler over build-tag hooks + recorded histories checked offline (porcupine linearizability, interval monitors) + race detector stress (runtime monitoring)",
-         "Three execution modes of the real queue: M1 runs every goroutine of generated client programs one at a time at the hook points (random walk / PCT), M2 records larger programs on the real scheduler with injected yields, M3 stresses many goroutines under the Go race detector; every recorded history is checked for FIFO linearizability with porcupine, back-pressure and observer bounds by interval arithmetic, panics and deadlocks. Interleavings are sampled, not enumerated.",
+         "Three execution modes of the real queue: M1 runs every goroutine of generated client programs one at a time at the hook points (random walk / PCT), M2 records larger programs on the real scheduler with injected yields, M3 stresses many goroutines under the Go race detector; every recorded history is checked for FIFO linearizability with porcupine, back-pressure and observer bounds by interval arithmetic, panics and deadlocks. For ten tiny programs every schedule at hook granularity is enumerated depth-first (up to a budget); beyond that interleavings are sampled.",
          "Valid-use programs; delays fall at hook points; races are only reported for accesses that really overlapped.",
          "DESIGN.md 4, 6/C04"),
  "C05": ("controlled randomized scheduler with a logical deadlock oracle (runtime monitoring)",
-         "The M1 scheduler explores schedules of well-formed producer/consumer/closer programs (with observers and a RemoveAll caller) and reports a state with unfinished goroutines and none enabled - a lost wake-up - in logical time; constructors with 0..64 initial values run as single-goroutine M1 programs, parsed Queue literals free-running with a stable-dump verdict. Liveness is restated as 'no stuck state in the explored schedules'.",
+         "The M1 scheduler explores schedules of well-formed producer/consumer/closer programs (with observers and a RemoveAll caller) and reports a state with unfinished goroutines and none enabled - a lost wake-up - in logical time; constructors with 0..64 initial values run as single-goroutine M1 programs, parsed Queue literals free-running with a stable-dump verdict; tiny programs are explored exhaustively depth-first; the same programs also run on the real scheduler (termination decided by the stable-dump rule). Liveness is restated as 'no stuck state in the explored schedules'.",
          "Goroutines that reach a blocked send/receive are committed to that channel object as they would be in the runtime; schedules are sampled.",
          "DESIGN.md 4.1, 6/C05"),
  "C06": ("controlled randomized scheduler incl. adopted library helper goroutines + stream checker + race detector stress (runtime monitoring)",
-         "M1 schedules feeder, library helpers (adopted after the spawn notification), readers and a group waiter for Fork/Split/Split-Join with lengths 0..4, fan-out 2..3, capacity 1..2; per-output sequences, closure, group counter, deadlock and panic are checked; M3 runs the same shapes with thousands of values, fan-out to 8 and lagging/bursty readers under the race detector. Sampled schedules.",
+         "M1 schedules feeder, library helpers (adopted after the spawn notification), readers and a group waiter for Fork/Split/Split-Join with lengths 0..4, fan-out 2..3, capacity 1..2; per-output sequences, closure, group counter, deadlock and panic are checked; M3 runs the same shapes with thousands of values, fan-out to 8 and lagging/bursty readers under the race detector; nine tiny stream programs are explored depth-first up to a budget. Sampled schedules.",
          "Delays fall at hook points; races only for accesses that really overlapped.",
          "DESIGN.md 4, 6/C06"),
  "C19": ("Go race detector over concurrent per-instance scripts with sequential reference transcripts (runtime monitoring, sanitizer)",
-         "In the race-detector build, for every pair of eight operation families 2..16 goroutines run deterministic scripts on instances they created themselves; each concurrent transcript must equal the sequential one and no race report may have a repository frame; 320 class accessors are called from 16 goroutines at once and must return the one class. Held on the runs observed.",
+         "In the race-detector build, for every pair of ten operation families 2..16 goroutines run deterministic scripts on instances they created themselves; each concurrent transcript must equal the sequential one and no race report may have a repository frame; every pair is also run cold in a fresh child process (first use concurrent); 320 class accessors are called from 16 goroutines at once and must return the one class. Held on the runs observed.",
          "No harness hook or shared harness state during the workload; races are only reported when accesses really overlap, hence repetitions with varying goroutine counts and GOMAXPROCS.",
          "DESIGN.md 4.3, 6/C19"),
 }
